@@ -32,7 +32,7 @@ ASSUMPTIONS = [
     "in-place methods (center_all) are judged as functions of the object's state before the call; their receiver is expected to change",
     "inside pool workers the wrappers only log (a forked worker's counters die with it); argument mutation there cannot reach the caller anyway",
 ]
-BUDGET_S = {"quick": 300, "thorough": 1800}
+BUDGET_S = {"quick": 600, "thorough": 2400}
 HASHSEEDS = ["0", "1", "77", "4242"]
 SHARDS = {"quick": 16, "thorough": 16}
 
